@@ -862,7 +862,9 @@ def oracle_quant(c, r):
                 fails.append(("quantile", "exc:%s" % o["exc"], "quantile raised %s" % exc_of({"o": o}, "o")))
                 continue
             v = unhex(o["ok"])
-            if not all(math.isfinite(x) for x in xs) or max(xs) - min(xs) == float("inf"):
+            # binary64 overflow of the slope (values beyond 1e100 or a weight below 1e-100 of the total) legitimately gives
+            # inf / NaN: the statements below are about the rational function, they are checked where no overflow can occur
+            if not all(abs(x) <= 1e100 for x in xs) or not all(w == 0 or w >= 1e-100 * sum(ws) for w in ws):
                 continue
             tol = 0.0 if c["exact"] else 1e-9 * max(abs(min(xs)), abs(max(xs)), 1e-300)
             if not (min(xs) - tol <= v <= max(xs) + tol):
@@ -882,6 +884,10 @@ def oracle_pdf(c, r):
     rows = c["rows"]
     if ok(o, "pl") != [[hx(unhex(x)) for x in row["p"]] for row in rows] or ok(o, "w") != [hx(unhex(x["w"])) for x in rows]:
         return [("memory", "values", "Sample.from_lists does not hold the given rows")]
+    # slope overflow in binary64 (see oracle_quant): order statements only where it cannot occur
+    wsum = sum(unhex(x["w"]) for x in rows)
+    big = any(abs(unhex(x)) > 1e100 for row in rows for x in row["p"]) or \
+        any(0 < unhex(x["w"]) < 1e-100 * wsum for x in rows)
     med = ok(o, "median")
     if med is None:
         return [("stats", exc_part(o, "median"), "median_pdf raised %s" % exc_of(o, "median"))]
@@ -892,7 +898,7 @@ def oracle_pdf(c, r):
             continue
         for m, (lo, hi) in zip(med, v):
             m, lo, hi = unhex(m), unhex(lo), unhex(hi)
-            if not all(math.isfinite(x) for x in (m, lo, hi)):
+            if not all(math.isfinite(x) for x in (m, lo, hi)) or big:
                 continue
             tol = 1e-9 * max(abs(lo), abs(hi), 1e-300)
             if c["wmode"] not in ("dominant",) and not (lo - tol <= m <= hi + tol):
@@ -901,7 +907,7 @@ def oracle_pdf(c, r):
     if v1 and v3:
         for (lo1, hi1), (lo3, hi3) in zip(v1, v3):
             lo1, hi1, lo3, hi3 = (unhex(x) for x in (lo1, hi1, lo3, hi3))
-            if not all(math.isfinite(x) for x in (lo1, hi1, lo3, hi3)):
+            if not all(math.isfinite(x) for x in (lo1, hi1, lo3, hi3)) or big:
                 continue
             tol = 1e-9 * max(abs(lo3), abs(hi3), 1e-300)
             if not (lo3 - tol <= lo1 and hi1 <= hi3 + tol):
